@@ -224,8 +224,7 @@ def oracleCap (items : List WItem) (aliases : List (Str × Str)) (obs : List Str
        else if C32.D_unguarded_alt aliases (specItems items) then "fails anchor:D_unguarded_alt"
        else if C32.D_name_order caps.length then "fails capture:D_name_order"
        else "fails capture:-"
-     | .panic, ["panic"] =>
-       if C32.D_scale_nan prims caps then "fails filter:D_scale_nan_panic" else "fails filter:-"
+     | _, ["panic"] => "fails filter:-"   -- no filter may panic (scale/NaN was fixed in /repo)
      | .oom, _ => "oom"
      | _, _ =>
        -- any other mismatch: a rule with an unguarded alternation matches something else than its text
@@ -290,10 +289,8 @@ def handle (op : String) (args : List String) : Option String :=
     let aliases ← aliasesOfString aliases
     let obs ← compileObs obs
     pure (if obs == .panicked then
-            -- compiling a rule must not panic; the one modelled panic is `nullIf()` (args[0] of an empty list)
-            (match ruleSource prims aliases rule with
-             | .panic => "fails compile:D_nullif_noargs_panic"
-             | _ => "fails compile:-")
+            -- compiling a rule must not panic (`nullIf()` used to: fixed in /repo)
+            "fails compile:-"
           else if C32.cycSpec prims aliases rule obs then "holds" else "fails cycle:-")
   | "o.c32.cap", items :: aliases :: "|" :: obs => do
     let items ← witemsOfString items
